@@ -1,10 +1,12 @@
 //! Correspondence harness: runs the real calloop (built from /repo with --cfg calloop_verif)
 //! on the same case files the extracted Coq model is run on, printing canonical result lines.
 
+mod m_cping;
 mod m_seq;
 mod m_signals;
 mod m_timing;
 mod m_token;
+mod sched;
 mod m_transient;
 
 fn main() {
@@ -16,6 +18,7 @@ fn main() {
     let args: Vec<String> = std::env::args().collect();
     match args.get(1).map(|s| s.as_str()) {
         Some("token") => m_token::run(),
+        Some("cping") => m_cping::run(),
         Some("timing") => m_timing::run(),
         Some("signals") => m_signals::run(),
         Some("transient") => m_transient::run(),
